@@ -278,6 +278,14 @@ func CoqCol(s *val.Syms, c val.Col) string {
 		s.ID(c.Name), kind, coqBase(s, c.KT, c.Enum, c.RefTable, c.RefType), vt, min, max, !c.Immutable)
 }
 
+// CoqColTy prints the [colty] term of a column.
+func CoqColTy(s *val.Syms, c val.Col) string {
+	t := CoqCol(s, c)
+	i := strings.Index(t, "(mkColTy")
+	j := strings.LastIndex(t, ")")
+	return t[i : j+1]
+}
+
 // CoqTable prints a [table] term.
 func CoqTable(s *val.Syms, t Table) string {
 	var cols []string
@@ -336,4 +344,32 @@ func JSONRow(vals map[string]val.Val) map[string]interface{} {
 		out[k] = v.JSONable()
 	}
 	return out
+}
+
+// CheckAgainst builds struct models from the column types of [fields] and
+// validates them against the schema [sc] (same table and column names):
+// nil when model.NewDatabaseModel accepts them.
+func CheckAgainst(sc, fields Schema) error {
+	var schema ovsdb.DatabaseSchema
+	if err := json.Unmarshal([]byte(sc.JSON()), &schema); err != nil {
+		return nil
+	}
+	models := map[string]model.Model{}
+	for ti, t := range fields.Tables {
+		fs := []reflect.StructField{{Name: "UUID", Type: reflect.TypeOf(""), Tag: reflect.StructTag(`ovsdb:"_uuid"`)}}
+		for i, c := range t.Cols {
+			fs = append(fs, reflect.StructField{Name: fmt.Sprintf("T%dF%d", ti, i), Type: c.NativeType(),
+				Tag: reflect.StructTag(fmt.Sprintf(`ovsdb:"%s"`, c.Name))})
+		}
+		models[t.Name] = reflect.New(reflect.StructOf(fs)).Interface()
+	}
+	cl, err := model.NewClientDBModel(sc.Name, models)
+	if err != nil {
+		return err
+	}
+	_, errs := model.NewDatabaseModel(schema, cl)
+	if len(errs) > 0 {
+		return errs[0]
+	}
+	return nil
 }
